@@ -20,6 +20,7 @@ type c06p struct {
 	poster, drawer bool
 	cycles         int
 	refused        bool // a Resume() on the running screen (refused) precedes the shutdown call
+	transient      bool // the window has another size at the moment of Resume and is back afterwards
 }
 
 func (p c06p) String() string {
@@ -27,6 +28,7 @@ func (p c06p) String() string {
 }
 
 var c06table []c06p
+var c06transient bool
 var c06rig *rig
 
 // restoredAtReturn replays everything written up to the moment the shutdown call returned
@@ -133,6 +135,9 @@ func c06Scenarios() []scenario {
 		add(c06p{op: op, refused: true, c: 12, e: 10, polling: true})
 	}
 	add(c06p{op: "suspend", refused: true, cycles: 1, c: 1})
+	// the window is smaller at the moment of Resume and back to its old size right after
+	add(c06p{op: "suspend", cycles: 1, c: 1, transient: true})
+	add(c06p{op: "suspend-fini", cycles: 1, c: 1, transient: true})
 	for _, cyc := range []int{1, 2} {
 		add(c06p{op: "suspend", cycles: cyc, c: 1})
 		add(c06p{op: "suspend", cycles: cyc, c: 2, e: 3, poster: true})
@@ -145,6 +150,7 @@ func c06prog(ps string, res *result) func() {
 	fmt.Sscan(ps, &idx)
 	p := c06table[idx]
 	return func() {
+		c06transient = p.transient
 		r := newRig(4, 2)
 		s := r.s
 		// ---- deterministic prologue: reach the requested fill levels ----
@@ -198,6 +204,9 @@ func c06prog(ps string, res *result) func() {
 					}
 					if cyc >= p.cycles {
 						break
+					}
+					if p.transient {
+						r.tty.w--
 					}
 					afterResume(r, res, cyc)
 				}
@@ -296,9 +305,16 @@ func afterFini(r *rig, res *result) {
 // afterResume: input and resize delivery work again.
 func afterResume(r *rig, res *result, cyc int) {
 	s := r.s
+	w0 := r.tty.w
 	if err := s.Resume(); err != nil {
 		res.fail("Resume returned %v", err)
 		return
+	}
+	if c06transient {
+		// the window is back at the size the screen knew before the Suspend
+		r.tty.w = w0 + 1
+		r.tty.notify()
+		s.Show()
 	}
 	key := byte('P' + cyc)
 	r.tty.inject([]byte{key})
